@@ -60,6 +60,36 @@ func runC05(ctx *Ctx) *Report {
 			cases = append(cases, c)
 		}
 	}
-	runCases(rep, cases, ctx.Workers, func(c Case) bool { return nonTrivialEnc(c.Tree) })
+	// large shapes; callbacks that use the library themselves while the walk is in progress
+	for bi, name := range []string{"deep", "wide", "many-roots", "long-names"} {
+		f := bigShapes()[name]
+		doc := spell(f, plainSpelling)
+		c := newCase("walk")
+		c.Doc, c.DocText, c.Fmt, c.Tree, c.Note = hx(doc), "<"+name+">", formats[bi%len(formats)], "", "big:"+name
+		cases = append(cases, c)
+		c.Busy = true
+		cases = append(cases, c)
+		if len(f) == 1 {
+			for _, brk := range []int{-1, 7, 40} {
+				c2 := newCase("rootiter")
+				c2.Tree, c2.Fmt, c2.Break, c2.Note = f[0].Enc(), formats[bi%len(formats)], brk, "big:"+name
+				cases = append(cases, c2)
+			}
+			c3 := newCase("rootwalk")
+			c3.Tree, c3.Fmt, c3.Busy, c3.Note = f[0].Enc(), formats[bi%len(formats)], true, "big:"+name
+			cases = append(cases, c3)
+		}
+	}
+	enumForests(4, []string{"a", "b"}, func(f []*Tree) {
+		t := &Tree{Name: "r", Kids: f}
+		c := newCase("rootwalk")
+		c.Tree, c.Fmt, c.Busy = t.Enc(), fmtDefault, true
+		cases = append(cases, c)
+		doc := spell([]*Tree{t}, plainSpelling)
+		c2 := newCase("walk")
+		c2.Doc, c2.DocText, c2.Fmt, c2.Busy, c2.Tree = hx(doc), docText(doc), fmtDefault, true, t.Enc()
+		cases = append(cases, c2)
+	})
+	runCases(rep, cases, ctx.Workers, func(c Case) bool { return c.Note != "" || nonTrivialEnc(c.Tree) })
 	return rep
 }
